@@ -359,4 +359,347 @@ theorem sockCopyToMux_facts (s : SockW) (w : MuxW) (m : MuxL) :
     rw [heof, hr1, hr2, hr3]
     simp [hpf, h1, h2, h3, h4]
 
+theorem sockCopyToMux_ok (s : SockW) (w : MuxW) (m : MuxL) (e : ESock) (ok : Bool) :
+    OpOk w.chan s w m e ok (sockCopyToMux s w m).1 (sockCopyToMux s w m).2.1 (sockCopyToMux s w m).2.2 e ok := by
+  obtain ⟨moved, h1, h2, h3, h4, h5, h6, h7, h8⟩ := sockCopyToMux_facts s w m
+  generalize sockCopyToMux s w m = r at *
+  obtain ⟨s', w', m'⟩ := r
+  simp only at h1 h2 h3 h4 h5 h6 h7 h8 ⊢
+  refine ⟨?_, ?_, h7, EnvKeeps.rfl' e⟩
+  · -- source view: an optional DATA frame, then an optional EOF
+    let a1 : SrcV := { present := true, ever := true, buf := s'.buf.flatten, shutR := s.shutR,
+                       mwShutW := w.shutW,
+                       out := m.out ++ (if moved = [] then [] else [⟨w.chan, DATA, moved⟩]),
+                       consumed := e.consumed }
+    have st1 : SrcStar w.chan (SV s w m e) a1 := by
+      by_cases hm : moved = []
+      · have : a1 = SV s w m e := by
+          simp only [a1, SV, hm, ↓reduceIte, List.append_nil]
+          rw [h1, hm]; simp
+        rw [this]; exact Star.refl _
+      · apply Star.single
+        apply srcStep_send' w.chan _ a1 moved <;> simp [a1, SV, h1, hm]
+    refine st1.trans ?_
+    by_cases he : (s'.buf.isEmpty && s'.shutR && !w.shutW) = true
+    · simp only [Bool.and_eq_true, Bool.not_eq_eq_eq_not, Bool.not_true] at he
+      obtain ⟨⟨hb, hr⟩, hw⟩ := he
+      apply Star.single
+      apply srcStep_eof' w.chan a1 _ <;>
+        simp_all [a1, SV, List.isEmpty_iff]
+    · have he' : (s'.buf.isEmpty && s'.shutR && !w.shutW) = false := by simpa using he
+      have : SV s' w' m' e = a1 := by
+        rw [h3] at he'
+        simp only [a1, SV, h2, h8, h3, he', Bool.or_false, Bool.false_eq_true, ↓reduceIte, List.append_nil]
+      rw [this]; exact Star.refl _
+  · apply sinkStar_flags <;> simp_all [KV]
+
+/-! ### MuxWrapper.copy_to(SockWrapper) -/
+
+theorem uwrite_ok (c : Nat) (s : SockW) (m : MuxL) (e : ESock) (ok se : Bool) (b : Bytes)
+    (r : SendRes) :
+    ∃ k, k ≤ b.length ∧ (k ≠ 0 → e.sawShut = false) ∧
+      ((s.uwrite e b r se).1 = some k ∨ ((s.uwrite e b r se).1 = none ∧ k = 0)) ∧
+      ∀ w : MuxW, OpOk c s w m { e with delivered := e.delivered ++ b.take k } ok
+        (s.uwrite e b r se).2.1 w m (s.uwrite e b r se).2.2 ok := by
+  unfold SockW.uwrite
+  by_cases hc : s.connecting = true
+  · simp only [hc, ↓reduceIte]
+    refine ⟨0, by simp, by simp, Or.inl rfl, fun w => ?_⟩
+    simp only [List.take_zero, List.append_nil]; exact OpOk.refl ..
+  · simp only [hc, Bool.false_eq_true, ↓reduceIte]
+    generalize hr' : (if e.sawShut = true then (match r with | .err => SendRes.err | _ => SendRes.epipe) else r) = r'
+    have hshut : e.sawShut = true → r' = .err ∨ r' = .epipe := by
+      intro hs; rw [← hr', if_pos hs]; cases r <;> simp
+    cases r' with
+    | sent n =>
+      simp only
+      refine ⟨min n b.length, Nat.min_le_right _ _, ?_, Or.inl rfl, fun w => OpOk.refl ..⟩
+      intro _
+      cases hs : e.sawShut with
+      | false => rfl
+      | true => rcases hshut hs with h | h <;> cases h
+    | eagain =>
+      simp only
+      refine ⟨0, by simp, by simp, by simp, fun w => ?_⟩
+      simp only [List.take_zero, List.append_nil]; exact OpOk.refl ..
+    | epipe =>
+      simp only
+      refine ⟨0, by simp, by simp, Or.inl rfl, fun w => ?_⟩
+      simp only [List.take_zero, List.append_nil]
+      exact nowrite_ok c s w m e ok se
+    | err =>
+      simp only
+      refine ⟨0, by simp, by simp, Or.inl rfl, fun w => ?_⟩
+      simp only [List.take_zero, List.append_nil]
+      exact seterr_ok c s w m e ok se
+
+theorem muxCopyToSock_ok (c : Nat) (w : MuxW) (s : SockW) (m : MuxL) (e : ESock) (ok se : Bool) (r : SendRes) :
+    OpOk c s w m e ok (muxCopyToSock w s e r se).2.1 (muxCopyToSock w s e r se).1 m
+      (muxCopyToSock w s e r se).2.2 ok := by
+  -- stage 1: the write of buf[0]
+  have stage1 : ∃ (w1 : MuxW) (s1 : SockW) (e1 : ESock),
+      OpOk c s w m e ok s1 w1 m e1 ok ∧ w1.shutR = w.shutR ∧ w1.shutW = w.shutW ∧ w1.chan = w.chan ∧
+      muxCopyToSock w s e r se =
+        (if (popEmpty w1.buf).isEmpty && w1.shutR then
+           ({ w1 with buf := popEmpty w1.buf }, (s1.nowrite e1 se).1, (s1.nowrite e1 se).2)
+         else ({ w1 with buf := popEmpty w1.buf }, s1, e1)) := by
+    unfold muxCopyToSock
+    cases hb : w.buf with
+    | nil => exact ⟨w, s, e, OpOk.refl .., rfl, rfl, rfl, by simp [hb]⟩
+    | cons b rest =>
+      by_cases hbe : b.isEmpty = true
+      · exact ⟨w, s, e, OpOk.refl .., rfl, rfl, rfl, by simp [hb, hbe]⟩
+      · have hbe' : b.isEmpty = false := by simpa using hbe
+        obtain ⟨k, hk, hsaw, hret, hop⟩ := uwrite_ok c s m e ok se b r
+        -- the delivery step: `k` bytes of buf[0] go to the endpoint
+        have hdel : OpOk c s w m e ok s { w with buf := b.drop k :: rest } m
+            { e with delivered := e.delivered ++ b.take k } ok := by
+          refine ⟨?_, ?_, rfl, ⟨rfl, rfl⟩⟩
+          · apply srcStar_flags <;> flag_tac
+          · apply Star.single
+            apply sinkStep_deliver' _ _ (b.take k) <;> simp [KV, hb]
+            · rw [← List.append_assoc, List.take_append_drop]
+            · intro h _
+              exact hsaw h
+        rcases hret with hret | ⟨hret, hk0⟩
+        · refine ⟨{ w with buf := b.drop k :: rest }, (s.uwrite e b r se).2.1, (s.uwrite e b r se).2.2,
+            hdel.trans (hop _), rfl, rfl, rfl, ?_⟩
+          simp only [hbe', Bool.false_eq_true, ↓reduceIte]
+          generalize SockW.uwrite s e b r se = x at hret hop ⊢
+          obtain ⟨x1, x2, x3⟩ := x
+          simp only at hret; subst hret
+          simp
+        · subst hk0
+          refine ⟨w, (s.uwrite e b r se).2.1, (s.uwrite e b r se).2.2, ?_, rfl, rfl, rfl, ?_⟩
+          · have h0 := hop w
+            simp only [List.take_zero, List.append_nil] at h0
+            exact h0
+          · simp only [hbe', Bool.false_eq_true, ↓reduceIte]
+            generalize SockW.uwrite s e b r se = x at hret hop ⊢
+            obtain ⟨x1, x2, x3⟩ := x
+            simp only at hret; subst hret
+            simp [hb]
+  obtain ⟨w1, s1, e1, hop, hr1, hr2, hr3, heq⟩ := stage1
+  rw [heq]
+  have hpop : OpOk c s1 w1 m e1 ok s1 { w1 with buf := popEmpty w1.buf } m e1 ok := by
+    refine ⟨?_, ?_, rfl, ⟨rfl, rfl⟩⟩
+    · apply srcStar_flags <;> flag_tac
+    · apply sinkStar_flags <;> first | (intro h; exact Or.inl h) | simp [KV, popEmpty_flatten]
+  split
+  · simp only
+    exact (hop.trans hpop).trans (nowrite_ok c s1 _ m e1 ok se)
+  · simp only
+    exact hop.trans hpop
+
+/-! ### the tail of Proxy.callback, Proxy.pre_select -/
+
+/-- OpOk stated on proxies. -/
+def POk (p : ProxyS) (m : MuxL) (e : ESock) (p' : ProxyS) (m' : MuxL) (e' : ESock) : Prop :=
+  OpOk p.mw.chan p.sw p.mw m e p.ok p'.sw p'.mw m' e' p'.ok ∧ p'.sockFirst = p.sockFirst
+
+theorem POk.refl (p : ProxyS) (m : MuxL) (e : ESock) : POk p m e p m e := ⟨OpOk.refl .., rfl⟩
+
+theorem POk.trans {p1 p2 p3 : ProxyS} {m1 m2 m3 : MuxL} {e1 e2 e3 : ESock}
+    (h1 : POk p1 m1 e1 p2 m2 e2) (h2 : POk p2 m2 e2 p3 m3 e3) : POk p1 m1 e1 p3 m3 e3 := by
+  refine ⟨h1.1.trans ?_, h2.2.trans h1.2⟩
+  have := h2.1
+  rw [h1.1.chan] at this
+  exact this
+
+theorem mwNoread_ok (c : Nat) (s : SockW) (w : MuxW) (m : MuxL) (e : ESock) (ok : Bool) (hc : w.chan = c)
+    (hs : s.shutW = true) :
+    OpOk c s w m e ok s (w.noread m).1 (w.noread m).2 e ok := by
+  unfold MuxW.noread
+  by_cases hr : w.shutR = true
+  · simp only [hr, ↓reduceIte]; exact OpOk.refl ..
+  · have hr' : w.shutR = false := by simpa using hr
+    simp only [hr', Bool.false_eq_true, ↓reduceIte]
+    refine ⟨?_, ?_, rfl, ⟨rfl, rfl⟩⟩
+    · apply Star.single
+      apply srcStep_stop' c _ _ rfl <;> simp [SV, MuxL.send, hc, STOP]
+    · apply sinkStar_flags <;> simp_all [KV]
+
+theorem mwNowrite_ok (c : Nat) (s : SockW) (w : MuxW) (m : MuxL) (e : ESock) (ok : Bool) (hc : w.chan = c)
+    (hb : s.buf.flatten = []) (hr : s.shutR = true) :
+    OpOk c s w m e ok s (w.nowrite m).1 (w.nowrite m).2 e ok := by
+  unfold MuxW.nowrite
+  by_cases hw : w.shutW = true
+  · simp only [hw, ↓reduceIte]; exact OpOk.refl ..
+  · have hw' : w.shutW = false := by simpa using hw
+    simp only [hw', Bool.false_eq_true, ↓reduceIte]
+    refine ⟨?_, ?_, rfl, ⟨rfl, rfl⟩⟩
+    · apply Star.single
+      apply srcStep_eof' c _ _ rfl <;> simp [SV, MuxL.send, hc, EOF, hb, hr, hw']
+    · apply sinkStar_flags <;> simp_all [KV]
+
+theorem dropSock_ok (p : ProxyS) (m : MuxL) (e : ESock) : POk p m e p.dropSock m e := by
+  unfold ProxyS.dropSock
+  split
+  · refine ⟨⟨?_, ?_, rfl, ⟨rfl, rfl⟩⟩, rfl⟩
+    · apply Star.single
+      apply srcStep_discard' _ _ _ rfl <;> simp [SV, SockW.noread]
+    · apply sinkStar_flags <;> flag_tac
+  · exact POk.refl ..
+
+theorem dropMux_ok (p : ProxyS) (m : MuxL) (e : ESock) : POk p m e (p.dropMux m).1 (p.dropMux m).2 e := by
+  unfold ProxyS.dropMux
+  split
+  next h =>
+    simp only [Bool.and_eq_true] at h
+    have h1 : POk p m e { p with mw := { p.mw with buf := [] } } m e := by
+      refine ⟨⟨?_, ?_, rfl, ⟨rfl, rfl⟩⟩, rfl⟩
+      · apply srcStar_flags <;> flag_tac
+      · apply Star.single
+        apply sinkStep_discard' _ _ (by simp [KV, h.2]) <;> simp [KV]
+    refine h1.trans ⟨?_, rfl⟩
+    exact mwNoread_ok _ p.sw { p.mw with buf := [] } m e p.ok rfl h.2
+  · exact POk.refl ..
+
+theorem finish_ok (p : ProxyS) (m : MuxL) (e : ESock) (se : Bool) :
+    POk p m e (p.finish m e se).1 (p.finish m e se).2.1 (p.finish m e se).2.2 := by
+  unfold ProxyS.finish
+  split
+  next h =>
+    simp only [Bool.and_eq_true] at h
+    obtain ⟨⟨⟨hsr, hmr⟩, hsb⟩, hmb⟩ := h
+    have hsb' : p.sw.buf.flatten = [] := by rw [List.isEmpty_iff.mp hsb]; rfl
+    -- both orders give the same state; go sock-nowrite, mux-nowrite, ok := false
+    have hA := nowrite_ok p.mw.chan p.sw p.mw m e p.ok se
+    have hsw : (p.sw.nowrite e se).1.buf.flatten = [] := by
+      unfold SockW.nowrite; split <;> (try split) <;> simp [hsb']
+    have hsr2 : (p.sw.nowrite e se).1.shutR = true := by
+      unfold SockW.nowrite; split <;> (try split) <;> simp [hsr]
+    have hsw2 : (p.sw.nowrite e se).1.shutW = true := by
+      unfold SockW.nowrite; split <;> (try split) <;> simp_all
+    have hB := mwNowrite_ok p.mw.chan (p.sw.nowrite e se).1 p.mw m (p.sw.nowrite e se).2 p.ok rfl hsw hsr2
+    have hC : OpOk p.mw.chan (p.sw.nowrite e se).1 (p.mw.nowrite m).1 (p.mw.nowrite m).2 (p.sw.nowrite e se).2 p.ok
+        (p.sw.nowrite e se).1 (p.mw.nowrite m).1 (p.mw.nowrite m).2 (p.sw.nowrite e se).2 false := by
+      refine ⟨Star.refl _, ?_, rfl, ⟨rfl, rfl⟩⟩
+      apply sinkStar_flags <;> simp_all [KV]
+    have hall := (hA.trans hB).trans hC
+    split <;> exact ⟨hall, rfl⟩
+  · exact POk.refl ..
+
+theorem cleanup_ok (p : ProxyS) (m : MuxL) (e : ESock) (se : Bool) :
+    POk p m e (p.cleanup m e se).1 (p.cleanup m e se).2.1 (p.cleanup m e se).2.2 := by
+  unfold ProxyS.cleanup
+  by_cases hf : p.sockFirst = true
+  · simp only [hf, ↓reduceIte]
+    exact ((dropSock_ok p m e).trans (dropMux_ok p.dropSock m e)).trans (finish_ok _ _ e se)
+  · simp only [hf, Bool.false_eq_true, ↓reduceIte]
+    exact ((dropMux_ok p m e).trans (dropSock_ok (p.dropMux m).1 (p.dropMux m).2 e)).trans (finish_ok _ _ e se)
+
+theorem preSelect_ok (p : ProxyS) (m : MuxL) (e : ESock) :
+    POk p m e (p.preSelectFlags m).1 (p.preSelectFlags m).2 e := by
+  unfold ProxyS.preSelectFlags
+  have hsn : ∀ (s : SockW) (w : MuxW) (b : Bool) (ok : Bool) (m : MuxL),
+      OpOk w.chan s w m e ok (if b then s.noread else s) w m e ok := by
+    intro s w b ok m
+    cases b
+    · exact OpOk.refl ..
+    · refine ⟨?_, ?_, rfl, ⟨rfl, rfl⟩⟩
+      · apply srcStar_flags <;> flag_tac
+      · apply sinkStar_flags <;> flag_tac
+  have hmn : ∀ (s : SockW) (w : MuxW) (ok : Bool) (m : MuxL),
+      OpOk w.chan s w m e ok s (if s.shutW then w.noread m else (w, m)).1
+        (if s.shutW then w.noread m else (w, m)).2 e ok := by
+    intro s w ok m
+    cases hs : s.shutW
+    · exact OpOk.refl ..
+    · exact mwNoread_ok _ s w m e ok rfl hs
+  obtain ⟨psw, pmw, pok, sf⟩ := p
+  cases sf
+  case true =>
+    simp only [↓reduceIte]
+    refine ⟨?_, rfl⟩
+    have h1 := hmn psw pmw pok m
+    have hch : (if psw.shutW then pmw.noread m else (pmw, m)).1.chan = pmw.chan := h1.chan
+    have h2 := hsn psw (if psw.shutW then pmw.noread m else (pmw, m)).1
+      (if psw.shutW then pmw.noread m else (pmw, m)).1.shutW pok
+      (if psw.shutW then pmw.noread m else (pmw, m)).2
+    rw [hch] at h2
+    exact h1.trans h2
+  case false =>
+    simp only [Bool.false_eq_true, ↓reduceIte]
+    refine ⟨?_, rfl⟩
+    have h1 := hsn psw pmw pmw.shutW pok m
+    have h2 := hmn (if pmw.shutW then psw.noread else psw) pmw pok m
+    exact h1.trans h2
+
+/-- **One whole `Proxy.callback`** is a sequence of abstract source transitions on the proxy's
+source view and of abstract sink transitions on its sink view. -/
+theorem callback_ok (p : ProxyS) (m : MuxL) (e : ESock) (io : CbIo) (p' : ProxyS) (m' : MuxL) (e' : ESock)
+    (h : p.callback m e io = .ok p' m' e') : POk p m e p' m' e' := by
+  obtain ⟨psw, pmw, pok, sf⟩ := p
+  generalize hp : ({ sw := psw, mw := pmw, ok := pok, sockFirst := sf } : ProxyS) = p at h ⊢
+  have hsf : p.sockFirst = sf := by rw [← hp]
+  unfold ProxyS.callback at h
+  cases htc : p.sw.tryConnect e io.conn io.shutErr with
+  | died => rw [htc] at h; cases h
+  | ok s0 e0 =>
+    rw [htc] at h
+    simp only at h
+    have h0 : POk p m e { p with sw := s0 } m e0 :=
+      ⟨tryConnect_ok _ p.sw p.mw m e p.ok io.shutErr io.conn s0 e0 htc, rfl⟩
+    have h1 : POk { p with sw := s0 } m e0 { p with sw := (s0.fill e0 io.recv io.shutErr).1 } m
+        (s0.fill e0 io.recv io.shutErr).2 :=
+      ⟨fill_ok _ s0 p.mw m e0 p.ok io.shutErr io.recv, rfl⟩
+    generalize s0.fill e0 io.recv io.shutErr = f at h h1
+    obtain ⟨s1, e1⟩ := f
+    simp only at h h1
+    cases sf
+    case true =>
+      have hf : p.sockFirst = true := hsf
+      have hpe : ∀ (a : SockW) (b : MuxW), ({ p with sw := a, mw := b } : ProxyS) =
+          { sw := a, mw := b, ok := p.ok, sockFirst := true } := by
+        intro a b; rw [← hf]
+      simp only [hf, ↓reduceIte] at h
+      have h2 : POk { p with sw := s1 } m e1
+          { p with sw := (sockCopyToMux s1 p.mw m).1, mw := (sockCopyToMux s1 p.mw m).2.1 }
+          (sockCopyToMux s1 p.mw m).2.2 e1 :=
+        ⟨sockCopyToMux_ok s1 p.mw m e1 p.ok, rfl⟩
+      generalize sockCopyToMux s1 p.mw m = g at h h2
+      obtain ⟨s2, w2, m2⟩ := g
+      simp only at h h2
+      have h3 : POk { p with sw := s2, mw := w2 } m2 e1
+          { p with sw := (muxCopyToSock w2 s2 e1 io.send io.shutErr).2.1,
+                   mw := (muxCopyToSock w2 s2 e1 io.send io.shutErr).1 } m2
+          (muxCopyToSock w2 s2 e1 io.send io.shutErr).2.2 :=
+        ⟨muxCopyToSock_ok _ w2 s2 m2 e1 p.ok io.shutErr io.send, rfl⟩
+      generalize muxCopyToSock w2 s2 e1 io.send io.shutErr = k at h h3
+      obtain ⟨w3, s3, e3⟩ := k
+      simp only at h h3
+      have h4 := cleanup_ok { p with sw := s3, mw := w3 } m2 e3 io.shutErr
+      simp only [hf] at h0 h1 h2 h3 h4
+      injection h with hp' hm he
+      subst hp' hm he
+      exact (((h0.trans h1).trans h2).trans h3).trans h4
+    case false =>
+      have hf : p.sockFirst = false := hsf
+      have hpe : ∀ (a : SockW) (b : MuxW), ({ p with sw := a, mw := b } : ProxyS) =
+          { sw := a, mw := b, ok := p.ok, sockFirst := false } := by
+        intro a b; rw [← hf]
+      simp only [hf, Bool.false_eq_true, ↓reduceIte] at h
+      have h2 : POk { p with sw := s1 } m e1
+          { p with sw := (muxCopyToSock p.mw s1 e1 io.send io.shutErr).2.1,
+                   mw := (muxCopyToSock p.mw s1 e1 io.send io.shutErr).1 } m
+          (muxCopyToSock p.mw s1 e1 io.send io.shutErr).2.2 :=
+        ⟨muxCopyToSock_ok _ p.mw s1 m e1 p.ok io.shutErr io.send, rfl⟩
+      generalize muxCopyToSock p.mw s1 e1 io.send io.shutErr = k at h h2
+      obtain ⟨w2, s2, e2⟩ := k
+      simp only at h h2
+      have hch : w2.chan = p.mw.chan := h2.1.chan
+      have h3 : POk { p with sw := s2, mw := w2 } m e2
+          { p with sw := (sockCopyToMux s2 w2 m).1, mw := (sockCopyToMux s2 w2 m).2.1 }
+          (sockCopyToMux s2 w2 m).2.2 e2 :=
+        ⟨sockCopyToMux_ok s2 w2 m e2 p.ok, rfl⟩
+      generalize sockCopyToMux s2 w2 m = g at h h3
+      obtain ⟨s3, w3, m3⟩ := g
+      simp only at h h3
+      have h4 := cleanup_ok { p with sw := s3, mw := w3 } m3 e2 io.shutErr
+      simp only [hf] at h0 h1 h2 h3 h4
+      injection h with hp' hm he
+      subst hp' hm he
+      exact (((h0.trans h1).trans h2).trans h3).trans h4
+
 end Sshuttle.Tunnel
